@@ -4,7 +4,7 @@
    implementation that the Rust twin of the validator has already judged. *)
 From Coq Require Import List ZArith Bool Floats.
 From SC Require Import Base.FloatUtil Base.Num C02.Model C02.Validator.
-From SC Require Import C02.FunMat C02.ModelTred2 C02.ModelTql2 C02.ModelSymEvd.
+From SC Require Import C02.FunMat C02.ModelTred2 C02.ModelTql2 C02.ModelSymEvd C02.ModelHqr2 C02.ModelGenEvd.
 From SC Require Export C02.CorrHess C02.CorrTql2.
 Import ListNotations.
 
@@ -82,3 +82,30 @@ Definition corr_tql2 (tol : float) (V : list (list float)) (d e : list float)
       flist_eq_abs tol (fmax (fmaxabs d) (fmaxabs e)) d'' xd &&
       list_eqb (fcol_eq_sign tol (fmaxabs_mat V)) C (transpose_rows 0%float n xV)
   end.
+
+(* ---- hqr2 as a whole (QR sweeps + back-substitution + final product), rows of A and V on entry;
+        d, e enter as zeros.  Bit-exact on everything the routine leaves: the working array, V, d, e
+        (the routine only uses + - * / sqrt |.| copysign and comparisons; `x.powf(2)` is x*x, complex
+        division is num-complex's formula).  A panic ("Too many iterations in hqr") is `None`. ---- *)
+Definition corr_hqr2 (A V xA xV : list (list float)) (xd xe : list float) : bool :=
+  match hqr2_rows FOps fcopysign eps_f64 A V with
+  | Some (A', V', d', e', _) => fmat_eq A' xA && fmat_eq V' xV && flist_eq d' xd && flist_eq e' xe
+  | None => false
+  end.
+Definition corr_hqr2_panics (A V : list (list float)) : bool :=
+  match hqr2_rows FOps fcopysign eps_f64 A V with
+  | Some _ => false
+  | None => true
+  end.
+
+(* ---- evd(false) end to end: balance ; elmhes ; eltran ; hqr2 ; balbak ; sort (ModelGenEvd.v) against
+        what evd(false) returns (rows of V, d, e), bit-exact; a panic is `None` ---- *)
+Definition evd_gen_f64 (A : list (list float)) :=
+  evd_gen_model FOps fcopysign t095_f64 eps_f64 bal_sweeps bal_fuel A.
+Definition corr_evd_gen (A xV : list (list float)) (xd xe : list float) : bool :=
+  match evd_gen_f64 A with
+  | Some (V, d, e, _) => fmat_eq V xV && flist_eq d xd && flist_eq e xe
+  | None => false
+  end.
+Definition corr_evd_gen_panics (A : list (list float)) : bool :=
+  match evd_gen_f64 A with Some _ => false | None => true end.
